@@ -295,6 +295,13 @@ func (ex *Exec) modSpecs(fr *Frame, ct *Contract) []modSpec {
 					}
 					out = append(out, modSpec{kind: "elemfamily", fam: typeKey(t)})
 					continue
+				case "structfamily":
+					t := env.resolveType(call.Args[0])
+					if t == nil {
+						specErr("structfamily: unknown type")
+					}
+					out = append(out, modSpec{kind: "structfamily", fam: typeKey(t)})
+					continue
 				case "mapfamily":
 					t := env.resolveType(call.Args[0])
 					if t == nil {
@@ -333,6 +340,9 @@ func (ex *Exec) frameRelation(mods []modSpec, name string, cur *Term, r, k *Term
 	switch fam {
 	case "H":
 		for _, m := range mods {
+			if m.kind == "structfamily" && m.fam == key {
+				return False, True, false
+			}
 			if m.kind == "loc" && m.loc.Kind == LHeap && typeKey(m.loc.Root) == key && matches(m.loc) {
 				covered = append(covered, Eq(r, m.loc.Ref))
 			}
@@ -450,6 +460,13 @@ func (ex *Exec) frameObligations(fr *Frame, out *State, ct *Contract, kind strin
 					goal = True
 				}
 			}
+		case "structfamily":
+			goal = False
+			for _, m := range mods {
+				if m.kind == "structfamily" && m.fam == w.Key {
+					goal = True
+				}
+			}
 		case "map":
 			cov := []*Term{Not(ULt(w.Ref, entry.Alloc))}
 			for _, m := range mods {
@@ -467,6 +484,9 @@ func (ex *Exec) frameObligations(fr *Frame, out *State, ct *Contract, kind strin
 			}
 			cov := []*Term{Not(ULt(w.Ref, entry.Alloc))}
 			for _, m := range mods {
+				if m.kind == "structfamily" && m.fam == w.Key {
+					cov = append(cov, True)
+				}
 				if m.kind == "loc" && m.loc.Kind == LHeap && typeKey(m.loc.Root) == w.Key {
 					mp, _, _ := pathString(m.loc.Root, m.loc.Path)
 					if mp == "" || mp == w.Prefix || strings.HasPrefix(w.Prefix, mp+".") {
